@@ -27,7 +27,7 @@ import (
 func init() {
 	driver.Register(&driver.Engine{
 		ID: "C17", Level: "exploration",
-		Rule: "each case is one program text + dialect option vector: P1=SourceProgramOptions (or FileProgram of the patched tree), bytes1=P1.Write, P2=CompiledProgram(bytes1) read through a rotating io.Reader kind (bytes.Reader, bytes.Buffer, one-byte reader, small bufio.Reader) whose storage the harness overwrites and reuses straight after decoding, bytes2=P2.Write, P3=CompiledProgram(bytes2); oracle: bytes2==bytes1==bytes3 and Record(P1)==Record(P2)==Record(P2 again)==Record(P3), Record = host events in order (t/tick/trace/print/load/assert stubs with canonical arguments, step count and full call stack positions), calling-frame docstrings and local bindings (DebugFrame), canon globals, canon error with every frame and the backtrace text, ExecutionSteps, Program.Filename/NumLoads/Load(i), and every accessor of every function reachable from globals or passed to the host. Families: (a) gen semantic programs x 64 option vectors x random layouts, (b) directed constants/metadata programs (int64 extremes, big ints, floats, bytes with all 256 values, long strings, non-UTF-8 string constants and docstrings (placed in the syntax tree and compiled with FileProgram, since no source text denotes them), docstrings, >255 and >65536 constants, >255 locals/globals/names/params/free variables/functions, 10-14 levels of closures, parameter forms, several aliased loads, comprehensions, recursion on/off), (c) position-table stress (thousands of instructions, 10^5-line gaps, column 10^4, huge loop/branch bodies) with failing runs, (d) the repository's testdata chunks run against a recording assert stub. distinct = distinct (program text, options) whose execution produced >=1 host event or >=1 function value",
+		Rule: "each case is one program text + dialect option vector: P1=SourceProgramOptions (or FileProgram of the patched tree), bytes1=P1.Write, P2=CompiledProgram(bytes1) read through a rotating io.Reader kind (bytes.Reader, bytes.Buffer, one-byte reader, small bufio.Reader, readers that deliver the last bytes together with io.EOF) whose storage the harness overwrites and reuses straight after decoding, bytes2=P2.Write, P3=CompiledProgram(bytes2); oracle: bytes2==bytes1==bytes3 and Record(P1)==Record(P2)==Record(P2 again)==Record(P3), Record = host events in order (t/tick/trace/print/load/assert stubs with canonical arguments, step count and full call stack positions), calling-frame docstrings and local bindings (DebugFrame), canon globals, canon error with every frame and the backtrace text, ExecutionSteps, Program.Filename/NumLoads/Load(i), and every accessor of every function reachable from globals or passed to the host. Families: (a) gen semantic programs x 64 option vectors x random layouts, (b) directed constants/metadata programs (int64 extremes, big ints, floats, bytes with all 256 values, long strings, non-UTF-8 string constants and docstrings (placed in the syntax tree and compiled with FileProgram, since no source text denotes them), docstrings, >255 and >65536 constants, >255 locals/globals/names/params/free variables/functions, 10-14 levels of closures, parameter forms, several aliased loads, comprehensions, recursion on/off), (c) position-table stress (thousands of instructions, 10^5-line gaps, column 10^4, huge loop/branch bodies) with failing runs, (d) the repository's testdata chunks run against a recording assert stub. distinct = distinct (program text, options) whose execution produced >=1 host event or >=1 function value",
 		Assumptions: []string{
 			"canon renderings and the host-event log distinguish every behaviour the property lists (results, prints, errors, backtrace positions, docstrings, parameter metadata, loads)",
 			"the independent reader of the encoding (inspect.go) is used for evidence and for naming the differing section only, never for the verdict",
@@ -221,7 +221,7 @@ func decode(data []byte) (p *starlark.Program, err error, pn *sl.Panic) {
 	decodeRoute++
 	var buf *bytes.Buffer
 	var rd io.Reader
-	switch decodeRoute % 5 {
+	switch decodeRoute % 7 {
 	case 0:
 		rd = bytes.NewReader(cp)
 	case 1:
@@ -235,6 +235,10 @@ func decode(data []byte) (p *starlark.Program, err error, pn *sl.Panic) {
 		buf = new(bytes.Buffer)
 		buf.Write(cp)
 		rd = buf
+	case 5:
+		rd = iotest.DataErrReader(bytes.NewReader(cp)) // final bytes arrive together with io.EOF (as from gzip/flate readers)
+	case 6:
+		rd = iotest.DataErrReader(iotest.HalfReader(bytes.NewReader(cp)))
 	}
 	pn = sl.Safe(func() { p, err = starlark.CompiledProgram(rd) })
 	for i := range cp {
